@@ -11,6 +11,8 @@ import random
 from .. import corpus, determined, gen, gen_dag, minimise, ops, proc
 from ..seams import SIM
 
+# relative tolerance for floating-point cells (VERIF_FLOAT_TOL overrides; 0 = bit-exact)
+FLOAT_TOL = float(__import__("os").environ.get("VERIF_FLOAT_TOL", "0"))
 BUDGET = {"quick": 120.0, "thorough": 3300.0}
 
 
@@ -75,7 +77,7 @@ def _child(op, variants):
             return {"ref": ref, "variants": []}
         for i, var in enumerate(variants):
             oc, permuted = _run_variant(op, var, sb, i + 1)
-            d = ops.diff_outcomes(ref, oc, tol=1e-9)
+            d = ops.diff_outcomes(ref, oc, tol=FLOAT_TOL)
             out.append({"diff": d, "permuted": permuted, "status": oc[0]})
         return {"ref": ("ok",), "variants": out}
     finally:
@@ -382,7 +384,7 @@ def run(ctx):
             "assumptions": [
                 "parser is a stand-in; everything else is real code",
                 "only input tables are permuted (intermediates are C15's knob); ordering inside a single SQL statement is DuckDB's own and is not controlled",
-                "float (DOUBLE) results compared with relative tolerance 1e-9; everything else exactly",
+                "floating-point cells are compared bit-exactly (VERIF_FLOAT_TOL=0), like everything else",
             ]}
 
 
